@@ -712,7 +712,7 @@ fn gen_suggest(r: &mut StdRng, cx: &Ctx) -> SuggestA {
   let base: String = match field.as_str() {
     "tag" => pick(r, &KW_TAGS).to_string(),
     "cat" => pick(r, &KW_CATS).to_string(),
-    _ => if chance(r, 1, 5) { xword(r) } else if chance(r, 1, 4) { pick(r, &UNI_WORDS).to_string() } else { corpus_word(r, cx) },
+    _ => if chance(r, 1, 5) { xword(r) } else if chance(r, 1, 3) { pick(r, &UNI_WORDS).to_string() } else { corpus_word(r, cx) },
   };
   let chars: Vec<char> = base.chars().collect();
   let fuzzy = if chance(r, 1, 2) {
@@ -720,6 +720,14 @@ fn gen_suggest(r: &mut StdRng, cx: &Ctx) -> SuggestA {
   } else {
     Some((r.gen_range(1..=2) as u8, r.gen_range(0..=2), *pick(r, &[1usize, 2, 5, 50, 50]), r.gen_range(0..=4)))
   };
+  // a multi-byte word under fuzzy: one of its multi-byte characters replaced by an ASCII letter
+  // (one edit in characters, more in bytes), edit budget 1
+  if let (Some(i), true) = (chars.iter().position(|c| !c.is_ascii()), fuzzy.is_some() && chance(r, 2, 3)) {
+    let mut w = chars.clone();
+    w[i] = 'e';
+    let plen = r.gen_range(0..=i.min(2));
+    return SuggestA { field, prefix: w.into_iter().collect(), size: r.gen_range(1..=6), fuzzy: Some((1, plen, 50, r.gen_range(0..=2))) };
+  }
   // prefix mode: a proper prefix; fuzzy mode: the word with one or two edits
   let mut p: Vec<char> = if fuzzy.is_some() && chance(r, 2, 3) {
     let mut w = chars.clone();
